@@ -222,6 +222,11 @@ func checkC07() fw.Check {
 						}
 					}
 					d := scripted.New(true, script)
+					if i%7 == 3 {
+						// every send blocks for a third of the listening timeout: the deadline passes while the sender is still
+						// working through the TTLs. What was accepted until then is the result - a slow sender is not an error.
+						d.SendCost = p.timeout / 3
+					}
 					res, err := runEngine(context.Background(), true, d, p)
 					ev := d.Snapshot()
 					checkMerge(c, id, p.first, p.last, ev, res, err)
